@@ -25,7 +25,7 @@ Qed.
 Definition minted_by (cfg : config) (s : st) (r : request) (k : N) (e : entry) : Prop :=
   exists id b,
     r_route r = RSession id /\ r_cred r = Bearer b /\
-    good_bearer (clock s) (cfg_host cfg) b /\
+    good_bearer (clock s) (cfg_host cfg) (cfg_secret cfg) b /\
     c_topic (b_claims b) = id /\
     (c_booking (b_claims b) = 0%N -> cfg_allow_empty cfg = true) /\
     denied s (c_booking (b_claims b)) = false /\
@@ -46,7 +46,7 @@ Proof.
   cbn zeta. destruct (handle true cfg s r) as [s' x] eqn:H. cbn [fst].
   pose proof H as H0. unfold handle in H.
   destruct (r_route r) eqn:Hr; try (inversion H; left; reflexivity);
-    destruct (validate_header (clock s) (cfg_host cfg) (r_cred r)) as [| |c] eqn:Hv; try (inversion H; left; reflexivity).
+    destruct (validate_header (clock s) (cfg_host cfg) (cfg_secret cfg) (r_cred r)) as [| |c] eqn:Hv; try (inversion H; left; reflexivity).
   - apply session_step_cases in H.
     destruct H as [[_ ->]|(e & i & n & He & Hi & Hn & Ht & Hsc & Hp & Hid & Hb & Hd & Hm)]; [left; reflexivity|].
     right; left. unfold mint in Hm. inversion Hm as [[Hs' Hx]]. clear Hm.
@@ -116,7 +116,7 @@ Proof. constructor. Qed.
 
 Lemma step_wf cfg s o : wf s -> wf (fst (step cfg s o)).
 Proof.
-  unfold wf. intros Hw. destruct o as [r|path code ua|c|t| |]; unfold step, step_gen.
+  unfold wf. intros Hw. destruct o as [r|path code ua|c|t| | |]; unfold step, step_gen.
   - pose proof (handle_effect cfg s r) as H. cbn zeta in H. destruct (handle true cfg s r) as [s' x]. cbn [fst] in *.
     destruct H as [->|[(k & e & _ & ->)|[(bid & e & ->)|(bid & e & ->)]]]; cbn [codes set_reg]; auto.
     + apply nodup_insert; [exact E|exact Hw].
@@ -129,6 +129,7 @@ Proof.
   - exact Hw.
   - cbn [fst sweep set_codes codes]. apply nodup_filterv; exact Hw.
   - exact Hw.
+  - exact Hw.
 Qed.
 
 (* an entry present after a step was there before, or this step minted it *)
@@ -136,7 +137,7 @@ Lemma step_codes cfg s o k e :
   wf s -> clk k (codes (fst (step cfg s o))) = Some e ->
   clk k (codes s) = Some e \/ exists r, o = OReq r /\ minted_by cfg s r k e.
 Proof.
-  unfold wf. intros Hw. destruct o as [r|path code ua|c|t| |]; unfold step, step_gen.
+  unfold wf. intros Hw. destruct o as [r|path code ua|c|t| | |]; unfold step, step_gen.
   - pose proof (handle_effect cfg s r) as H. cbn zeta in H. destruct (handle true cfg s r) as [s' x]. cbn [fst] in *.
     destruct H as [->|[(k0 & e0 & Hm & ->)|[(bid & e0 & ->)|(bid & e0 & ->)]]]; cbn [codes set_reg]; auto.
     + intros H. destruct (N.eq_dec k k0) as [->|Hn].
@@ -151,6 +152,7 @@ Proof.
   - cbn; auto.
   - cbn [fst sweep set_codes codes]. intros H. apply clk_filterv_some in H; [left; apply H|exact Hw].
   - cbn; auto.
+  - cbn; auto.
 Qed.
 
 (* a member present after a step was there before, or this step joined it *)
@@ -159,7 +161,7 @@ Lemma step_hub cfg s o m :
   In m (hub s) \/ exists path k ua e, o = OWs path (Some k) ua /\ joined_by cfg s path k ua e m /\
                                       snd (step cfg s o) = OutWs (WJoined m).
 Proof.
-  destruct o as [r|path code ua|c|t| |]; unfold step, step_gen.
+  destruct o as [r|path code ua|c|t| | |]; unfold step, step_gen.
   - pose proof (handle_effect cfg s r) as H. cbn zeta in H. destruct (handle true cfg s r) as [s' x]. cbn [fst] in *.
     destruct H as [->|[(k0 & e0 & Hm & ->)|[(bid & e0 & ->)|(bid & e0 & ->)]]]; cbn [hub set_reg]; auto.
     unfold drop_booking. intros H. apply filter_In in H. left; apply H.
@@ -171,6 +173,7 @@ Proof.
   - cbn; auto.
   - cbn; auto.
   - cbn; auto.
+  - cbn [fst set_hub hub]. intros H. apply filter_In in H. left; apply H.
 Qed.
 
 (* ------------------------------------------------------------------ histories *)
@@ -282,7 +285,7 @@ Qed.
 (* ------------------------------------------------------------------ a spent code stays dead *)
 Lemma step_next_code cfg s o : (next_code s <= next_code (fst (step cfg s o)))%N.
 Proof.
-  destruct o as [r|path code ua|c|t| |]; unfold step, step_gen; try (cbn; lia).
+  destruct o as [r|path code ua|c|t| | |]; unfold step, step_gen; try (cbn; lia).
   - pose proof (handle_effect cfg s r) as H. cbn zeta in H. destruct (handle true cfg s r) as [s' x]. cbn [fst] in *.
     destruct H as [->|[(k & e & _ & ->)|[(bid & e & ->)|(bid & e & ->)]]]; cbn; lia.
   - pose proof (ws_accept_cases cfg s path code ua) as H. cbn zeta in H.
@@ -351,7 +354,7 @@ Qed.
 Lemma run_never_faults cfg s ops : ~ In (OutResp Panic) (snd (run cfg s ops)).
 Proof.
   intros H. apply run_outputs in H. destruct H as (s1 & o & H).
-  destruct o as [r|path code ua|c|t| |]; unfold step, step_gen in H; try (cbn in H; discriminate).
+  destruct o as [r|path code ua|c|t| | |]; unfold step, step_gen in H; try (cbn in H; discriminate).
   - pose proof (handle_answers cfg s1 r) as Ha. destruct (handle true cfg s1 r) as [s' x]. cbn [snd] in *.
     inversion H; subst; contradiction.
   - destruct (ws_accept cfg s1 path code ua); cbn in H; discriminate.
@@ -425,4 +428,52 @@ Lemma refused_then_next cfg s r o :
 Proof.
   intros H. apply handle_refusal_frame in H. unfold step at 2. unfold step_gen.
   destruct (handle true cfg s r) as [s' x]. cbn [fst] in *. subst s'. reflexivity.
+Qed.
+
+(* ------------------------------------------------------------------ what a join requires at admission time *)
+Lemma join_requires cfg s path code ua m :
+  snd (ws_accept cfg s path code ua) = WJoined m ->
+  exists k e, code = Some k /\ joined_by cfg s path k ua e m.
+Proof.
+  intros Hw. pose proof (ws_accept_cases cfg s path code ua) as H. cbn zeta in H.
+  destruct H as [([H|H] & _)|(k & e & m' & -> & Hw' & Hj & _)]; try congruence.
+  rewrite Hw in Hw'. inversion Hw'; subst m'. exists k, e. auto.
+Qed.
+
+(* a live code whose store lifetime has run out, whose token has expired or is not valid yet, whose booking is
+   denied, whose audience is not the relay's or whose scopes hold neither read nor write: refused, nobody joins *)
+Lemma ws_unfit_refused cfg s path k ua e :
+  clk k (codes s) = Some e ->
+  (e_store_exp e < clock s)%Z \/ (e_exp e < clock s)%Z \/ (clock s < e_nbf e)%Z \/ denied s (e_booking e) = true \/
+  e_aud e <> cfg_audience cfg \/ (str_mem "read" (e_scopes e) = false /\ str_mem "write" (e_scopes e) = false) ->
+  (snd (ws_accept cfg s path (Some k) ua) = WNotFound \/ snd (ws_accept cfg s path (Some k) ua) = WRefused) /\
+  hub (fst (ws_accept cfg s path (Some k) ua)) = hub s.
+Proof.
+  intros Hk Hbad. pose proof (ws_accept_cases cfg s path (Some k) ua) as H. cbn zeta in H.
+  destruct H as [(Hw & Hh & _)|(k' & e' & m & Hc & _ & Hj & _)]; [auto|exfalso].
+  inversion Hc; subst k'. destruct Hj as (Hk' & _ & _ & _ & _ & _ & _ & _ & _ & Hr & Hwr & Hrw & Ha & Ht & Hs & Hd).
+  rewrite Hk in Hk'. inversion Hk'; subst e'.
+  destruct Hbad as [B|[B|[B|[B|[B|[B1 B2]]]]]]; try lia; try congruence.
+Qed.
+
+(* ------------------------------------------------------------------ bound to the token's expiry *)
+(* once the due expiry timers have fired, nobody whose token expired more than a second ago is a member *)
+Lemma timers_end_expired cfg s m :
+  In m (hub (fst (step cfg s OTimers))) -> In m (hub s) /\ (clock s <= m_exp m + 1)%Z.
+Proof.
+  unfold step, step_gen. cbn [fst set_hub hub]. intros H. apply filter_In in H. destruct H as [Hin Hc].
+  split; [exact Hin|]. lia.
+Qed.
+
+(* and the expiry a member carries is, through every history, the exp of the bearer its code was minted for *)
+Lemma member_expiry_is_the_tokens cfg t ops m :
+  In m (hub (reach cfg t ops)) ->
+  exists ops1 r ops2 b, ops = ops1 ++ OReq r :: ops2 /\ r_cred r = Bearer b /\ c_exp (b_claims b) = Some (m_exp m) /\
+                        good_bearer (clock (reach cfg t ops1)) (cfg_host cfg) (cfg_secret cfg) b.
+Proof.
+  intros H. apply join_sound in H. destruct H as (o1 & path & k & ua & o2 & e & -> & Hj & _ & Hm).
+  destruct Hm as (a & r & b0 & -> & id & b & _ & Hc & Hg & _ & _ & _ & _ & _ & _ & _ & He & _).
+  destruct Hj as (_ & _ & _ & _ & _ & _ & Hx & _).
+  exists a, r, (b0 ++ OWs path (Some k) ua :: o2), b. split; [rewrite <- app_assoc; reflexivity|].
+  split; [exact Hc|]. split; [rewrite Hx; exact He|exact Hg].
 Qed.
